@@ -124,7 +124,7 @@ def check(run):
     run.level = "translation_validation"
     broken = []
     try:
-        vlib.proof_stage(run, "C09", ["C01/Properties.v", "C09/Properties.v", "C09/Eqb.v"], pins="C09")
+        vlib.proof_stage(run, "C09", ["C01/Properties.v", "C09/Properties.v", "C09/Eqb.v", "C09/EqbSound.v"], pins="C09")
     except Broken as b:
         broken.append(b)
     wits, stats, cstats, srcs = [], {}, None, []
